@@ -159,6 +159,34 @@ def check(ctx, otree, leaves0, odsl, cfg):  # noqa: C901, PLR0912, PLR0915
                 if r5 != ('exc', 'ValueError') and not odd_matches:
                     ctx.violation('transpose_map-varying-shape', f'{PROP}:transpose_map-varying-shape',
                                   dict(case, odd=odd_dsl), repr(r5)[:300])
+    # the inner structure is taken from the FIRST result, also when that result is None and later ones are not
+    if m >= 2:
+        for variant, fn in (('map', optree.tree_transpose_map), ('path', optree.tree_transpose_map_with_path),
+                            ('acc', optree.tree_transpose_map_with_accessor)):
+            k = [0]
+            later = []
+
+            def h(*a, k=k, later=later):
+                k[0] += 1
+                if k[0] == 1:
+                    return None
+                later.append((un.Leaf(70 + k[0]), un.Leaf(80 + k[0])))
+                return later[-1]
+
+            ctx.count()
+            r8 = outcome_of(lambda fn=fn, h=h: fn(h, otree, **kw))
+            first_is_leaf = cfg['nil'] or (kw['is_leaf'] is not None and kw['is_leaf'](None))
+            if first_is_leaf:
+                # None is a leaf: the inner structure is a single leaf, every result is kept whole
+                want8 = ref_unflatten(oflat.desc, [None, *later])
+                ok = r8[0] == 'ok' and not why_different(want8, r8[1], U)
+                if cfg['pred'] == 'tuple_or_none':
+                    ok = r8[0] == 'ok' and not why_different(want8, r8[1], U)
+            else:
+                ok = r8 == ('exc', 'ValueError')  # None is a node without leaves: an empty inner structure
+            if not ok:
+                ctx.violation('transpose_map-first-result-none', f'{PROP}:transpose_map-inner-from-first-result',
+                              {'tree': odsl, 'cfg': cfg, 'variant': variant}, repr(r8)[:400])
     # empty inner structures
     if m > 0:
         for edsl in EMPTIES:
